@@ -216,6 +216,10 @@ def run(ck, tier):
     _agree(ck, p)
     n = serde_audit.audit(ck, p, "R-C14-serde", "harper_core::ignored_lints::IgnoredLints", "IgnoredLints")
     ck.floor("R-C14-serde", "ADTs in IgnoredLints serde graph", n, 1)
+    # harper-ls hands the lint to the client inside the code action (serde_json::to_value) and reads it back in the
+    # HarperIgnoreLint command (from_value): what is hashed into the ignore list is the lint AFTER that round trip
+    n2 = serde_audit.audit(ck, p, "R-C14-serde", "harper_core::linting::lint::Lint", "Lint (code-action argument of HarperIgnoreLint)")
+    ck.floor("R-C14-serde", "ADTs in the serde graph of Lint", n2, 3)
     _wasm_io(ck, p)
     _context(ck, p)
     _stable(ck, p)
